@@ -111,6 +111,33 @@ def _install_logging_stubs():
 
 
 
+class LazyText(str):
+    """placeholder for text formatted from symbolic values. Almost all such text only feeds log records; the few
+    consumers that give text a meaning (struct format strings, int(text, base)) call semantic_text(), which computes
+    the real text (realising the values) from what is remembered here."""
+    def __new__(cls, kind, fmt, args, kwargs=None):
+        o = str.__new__(cls, "<fmt>")
+        o._lazy = (kind, fmt, args, kwargs or {})
+        return o
+
+
+def semantic_text(x):
+    """called by models of functions that interpret text: never let placeholder text be interpreted"""
+    with NoTracing():
+        lazy = getattr(x, "_lazy", None) if type(x) is LazyText else None
+        plain_placeholder = lazy is None and type(x) is str and ("<fmt>" in x or "<hex>" in x)
+    if lazy is not None:
+        from crosshair.core import deep_realize
+        kind, fmt, args, kwargs = lazy
+        if kind == "%":
+            return str.__mod__(fmt, deep_realize(args))
+        return str.format(fmt, *deep_realize(args), **deep_realize(kwargs))
+    if plain_placeholder:
+        from crosshair.util import CrosshairUnsupported
+        raise CrosshairUnsupported("placeholder text (formatted from symbolic values) reached a function that interprets it")
+    return x
+
+
 def _percent(self, other):
     with NoTracing():
         concrete_fmt = type(self) is str
@@ -121,7 +148,7 @@ def _percent(self, other):
             if r is not None:
                 return r
             return str.__mod__(self, other)
-        return "<fmt>"
+        return LazyText("%", self, other)
     return str.__mod__(self, other)      # next layer: CrossHair's model (realises, then the builtin)
 
 
@@ -130,7 +157,7 @@ def _format(self, *a, **kw):
         concrete_fmt = type(self) is str
         sym = _is_symbolic_nt(a) or _is_symbolic_nt(kw)
     if concrete_fmt and sym:
-        return "<fmt>"
+        return LazyText("format", self, a, kw)
     return str.format(self, *a, **kw)
 
 
@@ -183,7 +210,7 @@ def _install_format_stubs():
     _override(str.__mod__, _percent)
     _override(str.format, _format)
     _override(hex, _hex)
-    INSTALLED["stubs"].append("str %% / str.format / hex() with symbolic arguments -> placeholder text, except protocol formats %s" % sorted(SEMANTIC_FORMATS))
+    INSTALLED["stubs"].append("str %% / str.format / hex() with symbolic arguments -> placeholder text (it feeds log records), except protocol formats %s; struct.pack/unpack and int() compute the real text if such a placeholder reaches them as a format string / numeral" % sorted(SEMANTIC_FORMATS))
 
 
 def install(contracts=()):
